@@ -513,6 +513,9 @@ func engineJSON(rc *RunCtx) *Outcome {
 		}
 	})
 	o.Sim = s
+	if s.Outcome == "" && o.Class == "" {
+		jsonSafeChecks(rc, o)
+	}
 	switch s.Outcome {
 	case "":
 	case "crash":
